@@ -711,7 +711,7 @@ def run(ctx):
 
 def sweep(ctx, res):
     """thorough: 891 sampled seconds (every 97th) x 3 anchors (second start, last microsecond, a frame boundary) x {-1,0,+1}
-    through SRT, WebVTT, MicroDVD - a sample, NOT every frame boundary (DESIGN.md 7/C02 promised more than is done)"""
+    through SRT, WebVTT, MicroDVD (a sample), then - wave 7 - EVERY MicroDVD frame boundary below 24 h (sweep_frames)"""
     for base in range(0, 86400, 97):
         spans = []
         for k in (base * 10**6, base * 10**6 + 999999, base * 10**6 + 40000 * 7):
@@ -728,6 +728,45 @@ def sweep(ctx, res):
                                           "input": [[list(map(repr, se)) for se in spans]], "lang_index": 0,
                                           "two_layout": False, "observed": repr(o), "replay": "write"})
     res["distribution"]["sweep_boundaries"] = 86400 // 97 * 9
+    sweep_frames(res)
+
+
+def sweep_frames(res, lo=1, hi=86400 * 25, block=20000):
+    """wave 7, thorough: EVERY MicroDVD frame boundary below 24 h (2 160 000 frames at 25 fps): the last microsecond before
+    the boundary (as a start) and the boundary itself (as an end) go through the real MicroDVDWriter (public API, blocks of
+    20 000 captions; about 3 minutes); expected frame numbers in exact integer arithmetic (t * 25 // 10**6 = what C02_mdvd_frames_binary64
+    proves the binary64 computation returns)."""
+    import re as _re
+    from pycaption import MicroDVDWriter, CaptionSet, CaptionList, Caption, CaptionNode
+    pat = _re.compile(r"^\{(\d+)\}\{(\d+)\}x$")
+    bad = 0
+    for a in range(lo, hi, block):
+        ns = range(a, min(a + block, hi))
+        caps, exp = [], []
+        for n in ns:
+            b = 40000 * n
+            caps.append(Caption(b - 1, b, [CaptionNode.create_text("x")]))    # start: last us of frame n-1, end: first of n
+            exp.append((n - 1, n))
+        out = impl.call(lambda: MicroDVDWriter().write(CaptionSet({"en-US": CaptionList(caps)})))
+        res["evaluations"] += 1
+        got = []
+        if isinstance(out, Ok):
+            for line in out.v.split("\n"):
+                m = pat.match(line)
+                if m:
+                    got.append((int(m.group(1)), int(m.group(2))))
+        if got != exp:
+            bad += 1
+            k = next((i for i, (x, y) in enumerate(zip(got, exp)) if x != y), 0)
+            c = caps[k] if k < len(caps) else caps[0]
+            res["violations"].append({"kind": "mdvd-tokens", "writer": "mdvd",
+                                      "what": "frame-boundary sweep: caption (%d, %d) written as %s, expected %s" % (
+                                          c.start, c.end, got[k] if k < len(got) else repr(out)[:80], exp[k] if k < len(exp) else None),
+                                      "input": [[[repr(c.start), repr(c.end)]]], "lang_index": 0, "two_layout": False,
+                                      "observed": repr(got[k] if k < len(got) else None), "replay": "write"})
+            if bad >= 3:
+                break
+    res["distribution"]["sweep_every_frame_boundary_below_24h"] = hi - lo
 
 
 def parse_time(r):
